@@ -32,6 +32,8 @@ DEFAULT_CFG = {
     "max_steps": 60_000,
     "ext_payload": '"ext"',
     "allow_unmapped": False,
+    "grace": 0.0,               # virtual seconds threads keep running after the wrapper returned
+    "api_latency": 0.0,         # virtual duration of a checkpoint API call (0: instantaneous)
 }
 
 OUTCOMES = {
@@ -139,6 +141,9 @@ class Driver:
                     self.cur["faults"].append({"call": rec["n"], "name": name, "tick": ex.tick})
                     if name == "blackhole":
                         ex.block(lambda: False, None, on=("api", "blackhole"))
+                    if name.startswith("badresp-"):
+                        rec["bad_response"] = name.split("-", 1)[1]   # a 200 response the SDK cannot parse
+                        return
                     raise client_error(name, "CheckpointDurableExecution")
         elif kind == "deliver-during":
             self._complete_menu(self.cfg["early_outcomes"], "early")
@@ -188,7 +193,7 @@ class Driver:
         ex = Exec(chooser=self.chooser, policy=cfg["policy"], start=self.clock, horizon=cfg["horizon"],
                   timer_choices=cfg["timer_choices"], tick0=self.tick_,
                   line_files=set(cfg["line_files"]) if cfg["line_files"] else None,
-                  max_steps=cfg["max_steps"])
+                  max_steps=cfg["max_steps"], grace=cfg["grace"])
         self.ex = ex
         self.running = True
         try:
@@ -205,8 +210,14 @@ class Driver:
         cur["errors"] = [(n, type(e).__name__, str(e)[:200]) for n, e in ex.errors]
         cur["worker_deaths"] = ex.worker_deaths
         cur["live_at_end"] = [t.name for t in ex.live_at_end]
+        t_ret = cur.get("tick_return")
         cur["executing_at_end"] = [dict(path=fmt_path(p), tick=e["tick"], kind=e["kind"])
-                                   for p, e in self.world.executing.items() if p != ("handler",)]
+                                   for p, e in self.world.executing.items()
+                                   if p != ("handler",) and (t_ret is None or e["tick"] < t_ret)]
+        cur["entered_after_return"] = [dict(path=fmt_path(e["path"]), kind=e["kind"], tick=e["tick"])
+                                       for e in self.world.entries
+                                       if t_ret is not None and e["inv"] == cur["n"] and e["tick"] > t_ret
+                                       and e["kind"] != "handler"]
         self.world.executing.clear()
         if ex.internal_error is not None:
             self.internal = str(ex.internal_error)
@@ -231,6 +242,7 @@ class Driver:
                 pth = pk["path"][:-1] if pk["path"] and pk["path"][-1] == "result" else pk["path"]
                 row = be.row_at(pth)
                 parked.append({"path": pk["path"], "op": pk["op"], "tick": pk["tick"], "thread": pk["thread"],
+                               "vt": pk.get("vt"), "due": pk.get("due"),
                                "type": row["Type"] if row else None,
                                "status": row["Status"] if row else None})
             cur["parked"] = parked
